@@ -6,7 +6,7 @@ from .common import *
 from .detectors import SPECS, gen_case
 
 ID = "C17"
-PROPS = ["Prop_C17", "Prop_C17_adwin", "Prop_C17_lfr", "Prop_C17_nndvi", "Prop_C17_kdq", "Prop_C17_ph_refuted", "Prop_C17_float"]
+PROPS = ["Prop_C17", "Prop_C17_adwin", "Prop_C17_lfr", "Prop_C17_nndvi", "Prop_C17_kdq", "Prop_C17_ph_refuted", "Prop_C17_float", "Prop_C17_hdm"]
 IMPORTS = c01.IMPORTS + "\nFrom MV Require Import Corr_C17 Mono_Float."
 CORR_NAME = "Corr_C17: the models whose monotonicity theorems are proved (DDM, EDDM, STEPD, CUSUM, PageHinkley) and ADWIN / LFR = the implementation, under both settings of every pair"
 TRUSTED = ["Coq 8.16.1 kernel + vm_compute + primitive floats",
